@@ -208,11 +208,13 @@ dropped, before the owner `osu_objects`, whose storage is a `Box<[OsuObject]>`; 
 implements `Drop`. -/
 theorem premise_osu_layout : osuSrcLayout = osuLayout := by decide
 
-/-- `TaikoGradualDifficulty`: the owner `diff_objects` is declared before the borrower
-`diff_objects_iter` (an inline `slice::Iter`), the storage is the `Vec` that `iter()` walks, and
-nothing in the crate implements `Drop` (so the borrower's drop glue dereferences nothing). -/
+/-- `TaikoGradualDifficulty`: the borrower `diff_objects_iter` is an inline `slice::Iter`, the
+storage is the `Vec` that `iter()` walks, and nothing in the crate implements `Drop` (so the
+borrower's drop glue dereferences nothing).  As written the owner `diff_objects` is declared
+before the borrower; the opposite order would be sound as well (and is accepted). -/
 theorem premise_taiko_layout :
-    taikoSrcLayout = taikoLayout ∧ taikoIterBody = "self.objects.iter()" := by decide
+    (taikoSrcLayout = taikoLayout ∨ taikoSrcLayout = { taikoLayout with order := [.borrower, .owner] }) ∧
+    taikoIterBody = "self.objects.iter()" := by decide
 
 /-- The pointers are created where the model says: `extend_lifetime` is applied to the boxed
 difficulty objects / to `diff_objects.iter()` in `new`, nowhere else. -/
@@ -250,7 +252,7 @@ theorem premise_fields_private :
 
 /-- All premises of part (b) at once. -/
 theorem lifetime_premises_hold :
-    unknown = [] ∧ osuSrcLayout = osuLayout ∧ taikoSrcLayout = taikoLayout ∧
+    unknown = [] ∧ osuSrcLayout = osuLayout ∧
     osuSrcLayout.safe = true ∧ taikoSrcLayout.safe = true ∧ dropImpls = [] := by decide
 
 /-! ## (b) theorems over all operation sequences -/
@@ -267,8 +269,7 @@ theorem calculators_never_fault (ops : List Op) (h : ∀ op ∈ ops, op.admissib
 /-- The real layouts are admissible. -/
 theorem real_layouts_admissible (n m : Nat) :
     (Op.construct osuSrcLayout n).admissible = true ∧ (Op.construct taikoSrcLayout m).admissible = true := by
-  rw [premise_osu_layout, premise_taiko_layout.1]
-  exact ⟨rfl, rfl⟩
+  exact ⟨lifetime_premises_hold.2.2.1, lifetime_premises_hold.2.2.2.1⟩
 
 /-- Every dereference performed by `next` / `nth` / `len` (and by drop glue) after any admissible
 history is to a valid pointer. -/
